@@ -206,12 +206,9 @@ fn long_buffers(ctx: &Ctx, rep: &mut Report) {
                 let mut text2 = String::new();
                 for i in 0..n {
                     if i % 500 == 499 || i + 3 >= n {
-                        text2.push_str(&format!("n{}              v{}
-key{}             = {}
-", i % 10, i, i % 7, i));
+                        text2.push_str(&format!("n{}                      v{}\r\nkey{}                  = {}\r\n", i % 10, i, i % 7, i));
                     } else {
-                        text2.push_str(&format!("l{}
-", i % 1000));
+                        text2.push_str(&format!("l{}\r\n", i % 1000));
                     }
                 }
                 for (c2, r2) in [(17usize, 10usize), (13, 10), (25, 4)] {
